@@ -53,7 +53,7 @@ Idx(cfg, s) == CHOOSE i \in 1..Len(cfg.stations) : cfg.stations[i] = s
 Tto(cfg, s) == cfg.tto[Idx(cfg, s)]
 Period(cfg, s) == cfg.period[Idx(cfg, s)]
 NApps(cfg, s) == cfg.napps[Idx(cfg, s)]
-FaultMode(cfg) == cfg.mode \in {"fault", "race"}
+FaultMode(cfg) == cfg.mode \in {"fault", "race", "vanish"}
 
 RuleInit(cfg) ==
   LET St == Stations(cfg) IN
@@ -72,7 +72,7 @@ RuleInit(cfg) ==
    outstanding |-> [s \in St |-> -1], rrNext |-> [s \in St |-> -1], declined |-> [s \in St |-> {}],
    hw |-> NoWatch,
    rot |-> [s \in St |-> NoRot],
-   lastPop |-> 0, faultsEnd |-> -1, disturbed |-> cfg.mode = "race", reached |-> FALSE, reachedAt |-> -1,
+   lastPop |-> 0, faultsEnd |-> -1, disturbed |-> cfg.mode = "race", garbled |-> cfg.mode = "race", reached |-> FALSE, reachedAt |-> -1,
    tokensSinceReached |-> 0, goodTokens |-> 0, lastTokDa |-> -1]
 
 (* ------------------------------------------------------------------ result plumbing *)
@@ -169,12 +169,21 @@ OnTx(rs, e) ==
       d == IF k = "token" THEN Da(b) ELSE -1
       passOn == k = "token" /\ d # s
       retry == passOn /\ cls = "PassSupervision" /\ rs.pas.by = s /\ rs.pas.to = d
-      moveOn == passOn /\ cls = "PassSupervision" /\ ~retry
+      \* giving up the supervised successor: a token to anybody else, including the station itself when nobody is left
+      \* (a token to itself counts only when it directly follows the station's own unanswered pass within two slot
+      \* times - otherwise it is a claim after the token-lost time-out)
+      selfGiveUp == d = s /\ last.by = s /\ Kind(last.b) = "token" /\ Da(last.b) = rs.pas.to /\ gap <= 2 * cfg.tsl
+      moveOn == k = "token" /\ cls = "PassSupervision" /\ ~retry /\ (d # s \/ selfGiveUp)
       gd == IF d \in St THEN rs.grant[d] ELSE NoGrant
       c11t == <<
         <<"C11.max3", retry => rs.pas.n + 1 <= 3>>,
         <<"C11.immediate", (retry /\ ~single /\ d \in St /\ d \in rs.online) => ~(gd.pending /\ gd.just /\ gd.inring /\ gd.froms = {s} /\ s = rs.pub[d].ps)>>,
         <<"C11.drop", (moveOn /\ rs.pas.by = s) => rs.pas.to \notin ToSet(rs.pub[s].las)>>,
+        \* "repeats the pass at most twice if nothing is heard, THEN removes the silent successor": the successor is
+        \* given up only after the pass and both repetitions stayed unanswered (three offers)
+        <<"C11.patience", (moveOn /\ rs.pas.by = s) => rs.pas.n >= 3>>,
+        <<"C11.none", TRUE>> >>
+      c11o == <<
         <<"C12.successor", (passOn /\ ~single /\ rs.expectSucc[s] # -1) => rs.expectSucc[s] = d>>,
         <<"C02.order", (passOn /\ rs.reached /\ ~FaultMode(cfg) /\ s \in rs.online) => d = Succ(rs.online, s)>>,
         <<"C06.order", (passOn /\ rs.reached /\ FaultMode(cfg) /\ s \in rs.online) => d = Succ(rs.online, s)>> >>
@@ -201,12 +210,13 @@ OnTx(rs, e) ==
         <<"C12.reply.when", (sresp /\ ~single) => gap <= cfg.tsl>> >>
       (* ---- C06.single after recovery: transmissions need a permission class again *)
       c06 == << <<"C06.single", (FaultMode(cfg) /\ rs.reached /\ rs.tokensSinceReached > 2 * Cardinality(rs.online)) => cls # "None">> >>
-      allc == (IF jring THEN c01 ELSE <<>>) \o (IF judged THEN c11a \o c11t \o c12g \o c13 \o c12r ELSE <<>>) \o c06
+      j11 == ~rs.garbled                    \* C11 needs a readable wire, not an unchanged population
+      allc == (IF jring THEN c01 ELSE <<>>) \o (IF j11 THEN c11a \o c11t ELSE <<>>) \o (IF judged THEN c11o \o c12g \o c13 \o c12r ELSE <<>>) \o c06
       clause == FirstBad(allc)
       hits == (IF jring THEN <<"C01." \o cls>> ELSE <<>>)
-              \o (IF judged /\ accepting THEN <<"C11.accept">> ELSE <<>>)
-              \o (IF judged /\ retry THEN <<"C11.max3">> ELSE <<>>)
-              \o (IF judged /\ moveOn THEN <<"C11.drop">> ELSE <<>>)
+              \o (IF j11 /\ accepting THEN <<"C11.accept">> ELSE <<>>)
+              \o (IF j11 /\ retry THEN <<"C11.max3">> ELSE <<>>)
+              \o (IF j11 /\ moveOn THEN <<"C11.drop", "C11.patience">> ELSE <<>>)
               \o (IF judged /\ passOn /\ rs.expectSucc[s] # -1 THEN <<"C12.successor">> ELSE <<>>)
               \o (IF passOn /\ rs.reached THEN <<ConvProp(rs) \o ".order">> ELSE <<>>)
               \o (IF judged /\ gappoll THEN <<"C12.range">> ELSE <<>>)
@@ -290,7 +300,7 @@ OnPoll(rs, e) ==
       rs2 == TryReach(rs1, e.t)
       late == ConvActive(rs) /\ ~rs2.reached /\ e.t > Deadline(rs)
       single == cfg.mode = "single"
-      cs == (IF judged /\ ~single THEN << <<"C11.heard", heardOk>>, <<"C12.cadence", cadOk>> >> ELSE <<>>)
+      cs == (IF ~rs.garbled /\ ~single THEN << <<"C11.heard", heardOk>> >> ELSE <<>>) \o (IF judged /\ ~single THEN << <<"C12.cadence", cadOk>> >> ELSE <<>>)
             \o (IF judged THEN << <<"C12.ready", readyOk>> >> ELSE <<>>)
             \o << <<ConvProp(rs) \o ".stable", stable>>, <<ConvProp(rs) \o ".converge", ~late>> >>
       hits == (IF judged /\ ~single /\ hwme THEN <<"C11.heard">> ELSE <<>>)
@@ -332,7 +342,10 @@ OnOnline(rs, e) ==
                !.visit[s] = NoVisit, !.recvPrev[s] = -1, !.recvCur[s] = -1, !.outstanding[s] = -1,
                !.rrNext[s] = -1, !.cadNs[s] = -1, !.offered[s] = {}, !.rogue = FALSE], <<>>)
 OnOffline(rs, e) ==
+  \* a station that stops between its transmissions leaves the wire readable (the hand-over clauses of C11 stay
+  \* judged); one that is cut off in the middle of a telegram garbles it
   R("ok", NoSig, [rs EXCEPT !.online = @ \ {e.st}, !.lastPop = e.t, !.reached = FALSE, !.disturbed = TRUE, !.goodTokens = 0,
+                            !.garbled = @ \/ (IF "mid_tx" \in DOMAIN e THEN e.mid_tx ELSE TRUE),
                             !.holder = IF @ = e.st THEN -1 ELSE @], <<>>)
 OnEnd(rs, e) ==
   LET late == ConvActive(rs) /\ ~rs.reached /\ e.t >= Deadline(rs)
@@ -348,9 +361,9 @@ RuleStep(rs, e) ==
     [] e.ev = "Cb"        -> OnCb(rs, e)
     [] e.ev = "Online"    -> OnOnline(rs, e)
     [] e.ev = "Offline"   -> OnOffline(rs, e)
-    [] e.ev = "Fault"     -> R("ok", NoSig, [rs EXCEPT !.disturbed = TRUE, !.reached = FALSE, !.goodTokens = 0], <<>>)
+    [] e.ev = "Fault"     -> R("ok", NoSig, [rs EXCEPT !.disturbed = TRUE, !.garbled = TRUE, !.reached = FALSE, !.goodTokens = 0], <<>>)
     [] e.ev = "Collision" -> R(IF rs.disturbed THEN "ok" ELSE "C01.overlap", [cls |-> "Collision", kind |-> "", st |-> e.st],
-                               [rs EXCEPT !.disturbed = TRUE, !.goodTokens = 0], <<>>)
+                               [rs EXCEPT !.disturbed = TRUE, !.garbled = TRUE, !.goodTokens = 0], <<>>)
     [] e.ev = "FaultsEnd" -> R("ok", NoSig, [rs EXCEPT !.faultsEnd = e.t, !.reached = FALSE, !.goodTokens = 0], <<>>)
     [] e.ev = "Panic"     -> R("C05.panic", [loc |-> e.loc], rs, <<>>)
     [] e.ev = "Hang"      -> R("C05.hang", NoSig, rs, <<>>)
@@ -358,7 +371,7 @@ RuleStep(rs, e) ==
     [] OTHER              -> R("ok", NoSig, rs, <<>>)
 
 AllClauses == {"C01.overlap", "C01.permission", "C01.tsdr", "C01.tid", "C01.Reply", "C01.Holder", "C01.PassSupervision", "C01.Claim", "C01.None",
-               "C11.accept", "C11.max3", "C11.immediate", "C11.drop", "C11.heard",
+               "C11.accept", "C11.max3", "C11.immediate", "C11.drop", "C11.patience", "C11.heard", "C11.none",
                "C12.range", "C12.one", "C12.cadence", "C12.successor", "C12.reply.state", "C12.reply.when", "C12.ready",
                "C13.hold",
                "C15.holder", "C15.rr", "C15.done", "C15.match", "C15.form", "C15.reply", "C15.timeout",
